@@ -148,7 +148,7 @@ func (ex *Exec) call(in ssa.Instruction, c *ssa.CallCommon) Val {
 		if copyOut != nil {
 			copyOut()
 		}
-		if ex.eng.DeepVacuity && !fc.NoReturn && ex.curPC != "false" && ex == ex.root() {
+		if ex.eng.DeepVacuity && !fc.NoReturn && ex.curPC != "false" && ex == ex.root() && !blockPanicsEng(ex.eng, in) {
 			// a callee postcondition that cannot hold at this call site would make everything after it vacuous
 			ex.vacuity("call "+callee.Name()+" returns", ex.curPC, pos)
 		}
@@ -594,6 +594,9 @@ func (ex *Exec) obligeLabel(kind, pc, goal string, pos token.Pos, label string) 
 func (ex *Exec) frameGoal(heap, ref string) (string, bool) {
 	r := ex.root()
 	if r.assignsAll {
+		return "", false
+	}
+	if g, ok := strings.CutPrefix(heap, "ghost:"); ok && isScratchGhost(g) {
 		return "", false
 	}
 	var alts []string
